@@ -8,8 +8,9 @@ import intervals as iv
 
 EXPLANATION = (
     "Decides 'every table lookup lands inside its table', the wrap-mask mechanism and the writer/reader agreement that "
-    "reduces slider-table correctness to the ray walker; not that the ray walker and leaper generators compute the "
-    "geometric definition: (N) every index type's N equals its number of variants and Square::N = 64; (UNCHK) every "
+    "reduces slider-table correctness to the ray walker; not that the ray walker and the king generator (loops) compute "
+    "the geometric definition - the loop-free pawn and knight generators are evaluated on every origin square against it "
+    "(LEAPGEN): (N) every index type's N equals its number of variants and Square::N = 64; (UNCHK) every "
     "get_unchecked index is X::array_idx() into a dimension of at least X::N, or a magic / hash-table index covered by "
     "MAGIC / C19; (SQ) Square values are built only inside `impl Square` from operands proven < 64 at every call site; "
     "(WRAP) each of the six file-changing single-step shifts, evaluated from its extracted (shift, mask) on all 64 "
@@ -30,6 +31,71 @@ def run(fx, rep, tier):
     rule_between(fx, rep)
     rule_origin(fx, rep)
     rule_magic(fx, rep)
+    rule_leapgen(fx, rep)
+
+
+def rule_leapgen(fx, rep):
+    """The generators of the pawn and knight attack sets are loop-free (an `|=` accumulation of shifted copies of the origin
+    bit, or index arithmetic): they are evaluated by the analyser - through the extracted return expressions of the Bitboard
+    step functions they call - for every origin square (and both colours), and each result must be exactly the geometric
+    definition: the on-board squares among (file±1, rank+1 towards the enemy) for a pawn, the eight (±1,±2)/(±2,±1) jumps for
+    a knight (seed C07-5b: one bit missing for a white pawn on g7). A generator containing a loop (king, sliders) or calling
+    something outside this fragment is reported as not decided."""
+    import pC16
+    players = {v["name"]: v["discr"] for v in fx.adt("player::Player")["variants"]}
+    ok = True
+    n = 0
+
+    def expect_pawn(sq, white):
+        f, r = sq % 8, sq // 8
+        out = 0
+        for df in (-1, 1):
+            nf, nr = f + df, r + (1 if white else -1)
+            if 0 <= nf < 8 and 0 <= nr < 8:
+                out |= 1 << (nr * 8 + nf)
+        return out
+
+    def expect_knight(sq):
+        f, r = sq % 8, sq // 8
+        out = 0
+        for df, dr in ((1, 2), (2, 1), (2, -1), (1, -2), (-1, -2), (-2, -1), (-2, 1), (-1, 2)):
+            nf, nr = f + df, r + dr
+            if 0 <= nf < 8 and 0 <= nr < 8:
+                out |= 1 << (nr * 8 + nf)
+        return out
+
+    jobs = []
+    gp = fx.find("attacks::generate_pawn_attacks")
+    gk = fx.find("attacks::generate_knight_attacks")
+    if len(gp) == 1:
+        for pname in ("White", "Black"):
+            jobs.append((gp[0], f"pawn/{pname}", lambda sq, pname=pname: {1: sq, 2: players[pname]}, lambda sq, pname=pname: expect_pawn(sq, pname == "White"), 2))
+    if len(gk) == 1:
+        jobs.append((gk[0], "knight", lambda sq: {1: sq}, expect_knight, 1))
+    for b, label, envf, expf, nargs in jobs:
+        undecided = False
+        bad_sq = None
+        for sq in range(64):
+            v = pC16.bits_eval(fx, ("call", b.name, tuple(("arg", i + 1) for i in range(nargs))), envf(sq))
+            if v is None:
+                undecided = True
+                break
+            n += 1
+            good = v == expf(sq)
+            rep.obligation(good)
+            if not good and bad_sq is None:
+                bad_sq = (sq, v, expf(sq))
+        if undecided:
+            rep.notes.append(f"C07-LEAPGEN: `{b.name}` ({label}) is not a loop-free formula the analyser can evaluate; not decided")
+            continue
+        if bad_sq is not None:
+            ok = False
+            sq, v, e = bad_sq
+            name = "abcdefgh"[sq % 8] + str(sq // 8 + 1)
+            rep.violation("C07-LEAPGEN", f"C07-LEAPGEN/{label}", f"`{b.name}` ({label}) evaluated on {name} gives {v:#018x}, the geometric definition is {e:#018x} (first of the squares that differ)",
+                          {"fn": b.name, "file": b.file, "line": b.line})
+    rep.sample({"rule": "C07-LEAPGEN", "evaluations": n})
+    rep.rule("C07-LEAPGEN", n, 0, ok, "loop-free leaper generators evaluated on every origin square against the geometric definition")
 
 
 def rule_n(fx, rep):
@@ -635,6 +701,14 @@ def rule_magic(fx, rep):
 MG = "src/chess/movegen/tables/magics.rs"
 BB = "src/chess/bitboard.rs"
 MUTANTS = [
+    {"name": "pawn attack generator by index arithmetic with an off-by-one board bound (seed C07-5b)", "expect": "C07-LEAPGEN/pawn/White",
+     "edits": [("src/chess/movegen/tables/attacks.rs", "    let mut attacks = Bitboard::EMPTY;\n    let sq = square.bb();\n\n    attacks |= sq.forward(player).west();\n    attacks |= sq.forward(player).east();\n\n    attacks\n}",
+                "    let idx = square.idx();\n    let file = idx % 8;\n    let mut attacks = 0;\n    match player {\n        Player::White => {\n            if file > 0 && idx + 7 < 63 {\n                attacks |= 1 << (idx + 7);\n            }\n            if file < 7 && idx + 9 < 63 {\n                attacks |= 1 << (idx + 9);\n            }\n        }\n        Player::Black => {\n            if file > 0 && idx >= 9 {\n                attacks |= 1 << (idx - 9);\n            }\n            if file < 7 && idx >= 7 {\n                attacks |= 1 << (idx - 7);\n            }\n        }\n    }\n    Bitboard::new(attacks)\n}")]},
+    {"name": "benign: pawn attack generator by index arithmetic, correct bounds", "benign": True,
+     "edits": [("src/chess/movegen/tables/attacks.rs", "    let mut attacks = Bitboard::EMPTY;\n    let sq = square.bb();\n\n    attacks |= sq.forward(player).west();\n    attacks |= sq.forward(player).east();\n\n    attacks\n}",
+                "    let idx = square.idx();\n    let file = idx % 8;\n    let mut attacks = 0;\n    match player {\n        Player::White => {\n            if file > 0 && idx + 7 < 64 {\n                attacks |= 1 << (idx + 7);\n            }\n            if file < 7 && idx + 9 < 64 {\n                attacks |= 1 << (idx + 9);\n            }\n        }\n        Player::Black => {\n            if file > 0 && idx >= 9 {\n                attacks |= 1 << (idx - 9);\n            }\n            if file < 7 && idx >= 7 {\n                attacks |= 1 << (idx - 7);\n            }\n        }\n    }\n    Bitboard::new(attacks)\n}")]},
+    {"name": "knight generator: one jump goes the wrong way", "expect": "C07-LEAPGEN/knight",
+     "edits": [("src/chess/movegen/tables/attacks.rs", "    attacks |= sq.east().south_east();", "    attacks |= sq.east().south_west();")]},
     {"name": "king attacks built as a row smear that keeps the origin (seed C07-4b)", "expect": "C07-ORIGIN/generate_king_attacks",
      "edits": [("src/chess/movegen/tables/attacks.rs", "    for direction in Direction::ALL {\n        attacks |= sq.in_direction(*direction);\n    }\n\n    attacks", "    let _ = &mut attacks;\n    let row = sq | sq.east() | sq.west();\n    row | row.north() | row.south()")]},
     {"name": "squares-between loses its diagonal alignment test (shape of seed C07-3)", "expect": "C07-BETWEEN",
